@@ -1268,7 +1268,12 @@ impl Server {
         let mut query = String::from("");
 
         for (key, value) in parameter_diff {
-            query.push_str(&format!("SET {} TO '{}';", key, value));
+            // Embedded single quotes must be doubled inside the string literal.
+            query.push_str(&format!(
+                "SET {} TO '{}';",
+                key,
+                value.replace('\'', "''")
+            ));
         }
 
         let res = self.query(&query).await;
